@@ -154,6 +154,15 @@ CLAIMED = {
              "union reaches the product. Numerical values and shell occupancy are not decided.",
         technique="homogeneity/bilinear normal forms by abstract interpretation, dispatch-exhaustiveness rule over annotated unions, same-source/slot rules",
         ref="5 C17"),
+    "C18": dict(
+        text="Narrow structural claim: a CFG must-pass-through rule proves the matrix handed to the SVD is centred on every path; def-use/slot rules prove "
+             "the mean is the per-feature mean, transform subtracts it and projects on components_.T, outputs are truncated to n_components, fit and "
+             "projection use the same masked flattened stack; classify builds the stack in molecule order with each molecule's own quaternion, adds "
+             "exactly one label column to a copy of the molecules and goes through replace (effect analysis: no write to self); the masked difference "
+             "applies the same wedge and transform to image and template. Equality with an exact SVD and cluster separation are numerical/statistical "
+             "and not decided.",
+        technique="CFG must-pass-through, def-use/slot rules on ast, effect analysis, linear-image provenance (homogeneity domain) for the difference map",
+        ref="5 C18"),
 }
 
 NOT_APPLICABLE = {
